@@ -123,8 +123,8 @@ def harnesses(tier):
                             'restarts': '<=2', 'file_size': 'unbounded Int >= 1', 'timestamps': 'unbounded Int'},
                     functions=fn, stubs=stubs, assumptions=assume, budget_s=900)]
     if not q:
-        hs.append(Harness('c14.head_crash.7ops', scenario_factory(7, ['txt'], ops=['write', 'read', 'save_crash', 'crash_restart']),
-                          bounds={'operations': 7, 'op kinds': 'write read save-with-crash crash-restart', 'restarts': '<=2'}, functions=fn, stubs=stubs, assumptions=assume, budget_s=900))
+        hs.append(Harness('c14.head_crash.6ops', scenario_factory(6, ['txt'], ops=['write', 'read', 'save_crash', 'crash_restart']),
+                          bounds={'operations': 6, 'op kinds': 'write read save-with-crash crash-restart', 'restarts': '<=2'}, functions=fn, stubs=stubs, assumptions=assume, budget_s=900))
     return hs
 
 
